@@ -636,7 +636,7 @@ protected:
 		volatile long double truncated = static_cast<long double>(double(rhs));
 		volatile double remainder = static_cast<double>(rhs - truncated);
 		hi = static_cast<double>(truncated);
-		lo = remainder;
+		lo = std::isfinite(hi) ? remainder : 0.0;  // an infinite (or overflowed) head has no remainder: inf - inf is NaN, finite - inf is -inf
 		return *this;
 	}
 #endif
